@@ -46,6 +46,7 @@ class RuleSpec:
     floor: int
     tier: str  # quick | thorough
     doc: str
+    default_props: tuple[str, ...] = ()  # obligations without explicit props= belong to these
 
 
 RULES: dict[str, RuleSpec] = {}
@@ -54,11 +55,14 @@ RULES: dict[str, RuleSpec] = {}
 EXCEPTIONS: dict[tuple[str, str], str] = {}
 
 
-def rule(rid: str, props, floor: int = 1, tier: str = "quick"):
+def rule(rid: str, props, floor: int = 1, tier: str = "quick", default=None):
+    """props: every property some obligation of the rule may belong to; default: the
+    properties of obligations that do not say otherwise (default = props)"""
+
     def deco(f):
         if rid in RULES:
             raise RuntimeError(f"duplicate rule {rid}")
-        RULES[rid] = RuleSpec(rid, f, tuple(props), floor, tier, (f.__doc__ or "").strip())
+        RULES[rid] = RuleSpec(rid, f, tuple(props), floor, tier, (f.__doc__ or "").strip(), tuple(default or props))
         return f
 
     return deco
@@ -105,7 +109,7 @@ class Ctx:
         dg = digest_node(kn, self.locals_of(where)) if kn is not None else "-"
         key = f"{self.spec.rid}:{construct}:{dg}"
         exc = EXCEPTIONS.get((self.spec.rid, construct))
-        p = frozenset(props) if props is not None else frozenset(self.spec.props)
+        p = frozenset(props) if props is not None else frozenset(self.spec.default_props)
         self.obs.append(
             Ob(self.spec.rid, construct, loc, bool(ok) or exc is not None, msg, key, p, nontrivial, exc if not ok else None)
         )
